@@ -371,12 +371,17 @@ class _parser:
         params = {}
         for attr in known:
             params.update({attr: getattr(self, attr)})
+        unset_tokens = list(self.unset_tokens)
         for attr in unknown:
-            for token, type, _ in self.unset_tokens:
+            for unset_token in unset_tokens:
+                token, type, _ = unset_token
                 if type == 0:
                     params.update({attr: int(token)})
                     setattr(self, "_token_%s" % attr, token)
                     setattr(self, attr, int(token))
+                    # a displaced token states one component only
+                    unset_tokens.remove(unset_token)
+                    break
 
     def _get_period(self):
         if self.settings.RETURN_TIME_AS_PERIOD:
